@@ -995,7 +995,7 @@ class Message(ABC):
             value = self.__raw_get(name)
             if value is not PLACEHOLDER:
                 kwargs[name] = deepcopy(value)
-        return self.__class__(**kwargs)  # type: ignore
+        return self.__copy_state_to(self.__class__(**kwargs))  # type: ignore
 
     def __copy__(self: T, _: Any = {}) -> T:
         kwargs = {}
@@ -1003,7 +1003,15 @@ class Message(ABC):
             value = self.__raw_get(name)
             if value is not PLACEHOLDER:
                 kwargs[name] = value
-        return self.__class__(**kwargs)  # type: ignore
+        return self.__copy_state_to(self.__class__(**kwargs))  # type: ignore
+
+    def __copy_state_to(self: T, other: T) -> T:
+        # The constructor recomputes the bookkeeping from its arguments: it forgets
+        # unknown fields and takes lazily materialised defaults for set values.
+        other.__dict__["_serialized_on_wire"] = self._serialized_on_wire
+        other.__dict__["_unknown_fields"] = self._unknown_fields
+        other.__dict__["_group_current"] = dict(self._group_current)
+        return other
 
     @classproperty
     def _betterproto(cls: type[Self]) -> ProtoClassMetadata:  # type: ignore
